@@ -129,6 +129,20 @@ func (c02) Gen(tier string, seed int64, emit func([]Ev)) {
 	}
 }
 
+// GenRows (B2): rows are the (packet, data) pairs of the model's structural space (Gen_C02).
+func (c02) GenRows(rows []Ev, tier string, seed int64, emit func([]Ev)) {
+	for i, row := range rows {
+		if tier != "thorough" && i%8 != int(seed)%8 {
+			continue // quick: every eighth pair (which ones depends on the seed)
+		}
+		kind := "af+payload"
+		if GB(row["pkt"])[3]&0x20 == 0 {
+			kind = "payload-only"
+		}
+		emit([]Ev{{"op": "setpayload", "before": row["pkt"], "data": row["data"], "kind": kind}})
+	}
+}
+
 func (c02) Exec(h []Ev) []Ev {
 	var prev []byte // the packet as the previous SetPayload of this history left it
 	for _, e := range h {
